@@ -94,7 +94,10 @@ func (s *State) callFunc(fn *ssa.Function, args []Value, where string, closure .
 		var res []Value
 		if fc := s.eng.contracts[fn]; fc != nil && !fc.Inline && fn != s.eng.root && s.ghostlogContract[shortFn(fn)] {
 			// the recorded callee has a contract of its own: the event is recorded AND its contract describes the results
+			// (the callee's own ghost-log effects are replaced by the single recorded entry)
+			saved := append([]LogEntry{}, s.log...)
 			res = s.applyContract(fn, fc, args, where)
+			s.log = saved
 		} else {
 			for i, t := range resultTypes(fn.Signature) {
 				res = append(res, s.symValue(t, fmt.Sprintf("%s.ret%d", lastSeg(shortFn(fn)), i)))
@@ -115,6 +118,19 @@ func (s *State) callFunc(fn *ssa.Function, args []Value, where string, closure .
 	if isClosure {
 		// bindings were appended after args: split
 		np := len(fn.Params)
+		if fc := s.eng.contracts[fn]; fc != nil && !fc.Inline && fn != s.eng.root && s.pure == 0 {
+			// a function literal under contract: the contract speaks about the captured VALUES, then the parameters
+			var cargs []Value
+			for _, b := range args[np:] {
+				if p, ok := b.(*PtrV); ok && p.object() != nil {
+					cargs = append(cargs, s.load(p, where))
+				} else {
+					cargs = append(cargs, b)
+				}
+			}
+			cargs = append(cargs, args[:np]...)
+			return s.applyContract(fn, fc, cargs, where)
+		}
 		return s.runClosure(fn, args[:np], args[np:])
 	}
 	if s.pure > 0 {
